@@ -4,6 +4,7 @@
 //! recordings on stdout which the TLA+ judges read back.
 #![allow(clippy::all)]
 mod util;
+mod c01;
 mod c08;
 
 fn main() {
@@ -13,6 +14,10 @@ fn main() {
     let cmd = args.first().map(|s| s.as_str()).unwrap_or("");
     let rest = &args[args.len().min(1)..];
     match cmd {
+        "c01-drive" => c01::drive(rest),
+        "c01-replay" => c01::replay(),
+        "c01-loop" => c01::drive_loop(rest),
+        "c01-pairs" => c01::pairs(rest),
         "c08-replay" => c08::replay(),
         _ => {
             eprintln!("unknown sub-command {cmd:?} {rest:?}");
